@@ -229,7 +229,7 @@ class C01:
             "segments": 2 if override is None and (seq_edit or rng.chance(0.2)) else 1,
             # sequential runs on a caching file-system loader: between the two halves some sources are
             # edited in place; both APIs replay the same history, so their caches must agree afterwards
-            "edit_between": seq_edit, "break_between": seq_break,
+            "edit_between": seq_edit, "break_between": seq_break, "edit_older": rng.chance(0.4),
             "sched_seed": rng.randrange(1 << 30),
             "lat": {"max": 0.01, "zero_p": rng.choice([0.1, 0.4]), "stall_p": rng.choice([0.0, 0.03])},
             "profile": rng.chance(0.04),
@@ -565,7 +565,9 @@ class C01:
                         # nothing is in flight: some sources are edited in place (new text, later mtime)
                         for nm in sc["edit_between"]:
                             rel = nm if "." in nm.rsplit("/", 1)[-1] or not sc["ext"] else nm + sc["ext"]
-                            fs.write("root/" + rel, "EDIT<" + sources[nm] + ">", 7)
+                            # the new version may carry an OLDER mtime than the one it replaces (a roll-back,
+                            # `cp -p`, a clock stepped back): a change all the same
+                            fs.write("root/" + rel, "EDIT<" + sources[nm] + ">", 0.25 if sc.get("edit_older") else 7)
                         bump(st, "reach.edited_between_loops")
                         if sc.get("break_between"):
                             # ... and a folder of templates is replaced by a plain file of the same name
